@@ -435,6 +435,32 @@ Definition witness (S : sys) (P : state -> bool) (T : tree) : option (list state
 Definition witness_ok (S : sys) (P : state -> bool) (path : list state) : bool :=
   path_ok S (init S) path && P (last_of (init S) path).
 
+(* breadth-first search that stops at the first level containing a state that satisfies P; returns
+   the path from the initial state (not trusted: the path is re-checked by witness_ok) *)
+Fixpoint search_from (S : sys) (P : state -> bool) (fuel : nat) (frontier : list state) (t : tree) : option (list state) :=
+  match fuel with
+  | O => None
+  | Datatypes.S f =>
+      match find P frontier with
+      | Some s => Some (trace_back 4000 t s [])
+      | None =>
+          match frontier with
+          | [] => None
+          | _ => let '(t', new) := fold_left (expand S) frontier (t, []) in search_from S P f (rev new) t'
+          end
+      end
+  end.
+
+Definition search (S : sys) (P : state -> bool) (fuel : nat) : option (list state) :=
+  let s0 := init S in search_from S P fuel [s0] (tinsert (skey s0) s0 None Leaf).
+
+(* search, then re-check the path found: true only if a reachable P-state has been exhibited *)
+Definition refuted (S : sys) (P : state -> bool) (fuel : nat) : bool :=
+  match search S P fuel with
+  | Some path => witness_ok S P path
+  | None => false
+  end.
+
 (* ------------------------------------------------------------------ system transformers *)
 
 (* the named branch lbl is never taken (its then-side is cut off) *)
